@@ -2603,7 +2603,7 @@ class PrefixWrapper:
         return wrapper
 
     def needs_update(self, hash, **kwds):
-        hash = to_unicode(hash, "ascii", "hash")
+        hash = to_unicode(hash, "utf-8", "hash")
         hash = self._unwrap_hash(hash)
         return self.wrapped.needs_update(hash, **kwds)
 
@@ -2637,6 +2637,7 @@ class PrefixWrapper:
         return self._wrap_hash(self.wrapped.hash(secret, **kwds))
 
     def verify(self, secret, hash, **kwds):
-        hash = to_unicode(hash, "ascii", "hash")
+        # NOTE: decoding as utf-8 rather than ascii, since wrapped plaintext "hashes" (e.g. roundup_plaintext) may be non-ascii
+        hash = to_unicode(hash, "utf-8", "hash")
         hash = self._unwrap_hash(hash)
         return self.wrapped.verify(secret, hash, **kwds)
